@@ -11,23 +11,24 @@ import (
 // String pools per column family; token 0 is the empty string. Pools whose ids the library sorts by
 // (shape ids, service ids) are in byte-wise order, with "10" before "9".
 var (
-	AgencyIDs  = []string{"", "MTA", "a2", "zz"}
+	AgencyIDs  = []string{"", "MTA", "a2", "zz", "MTA "}
 	Names      = []string{"", "Main St", "Elm, Ave \"Q\"", "Line\nbreak", "Ünï → ok", " lead", "trail ", "x"}
 	URLs       = []string{"", "http://a.example/x?y=1,2", "https://b.example/"}
 	TZs        = []string{"", "America/New_York", "UTC", "Asia/Kolkata", "Not/AZone", "Pacific/Auckland"}
 	Langs      = []string{"", "en", "fr-CA"}
 	Phones     = []string{"", "+1 (212) 555-0100", "555"}
 	Emails     = []string{"", "info@a.example", "x@y"}
-	RouteIDs   = []string{"", "R1", "r2", "10", "9"}
+	RouteIDs   = []string{"", "R1", "r2", "10", "9", "R1 "}
 	Colors     = []string{"", "FFFFFF", "000000", "00AA11", "ff0000"}
-	StopIDs    = []string{"", "S1", "s2", "st3", "P4", "p5", "x6"}
+	StopIDs    = []string{"", "S1", "s2", "st3", "P4", "p5", "x6", "S1 "}
 	Codes      = []string{"", "c1", "C2"}
 	Zones      = []string{"", "z1", "z2"}
-	ServiceIDs = []string{"", "10", "9", "WK", "sa", "su"}
-	ShapeIDs   = []string{"", "10", "9", "Sh", "sh2"}
-	TripIDs    = []string{"", "T1", "t2", "t3", "10", "9"}
+	ServiceIDs = []string{"", "10", "9", "WK", "sa", "su", "WK "} // "WK " is only ever referenced, never a calendar id (it is out of order)
+	ShapeIDs   = []string{"", "10", "9", "Sh", "sh2", "Sh "} // "Sh " is only ever referenced, never a shapes.txt id
+	TripIDs    = []string{"", "T1", "t2", "t3", "10", "9", "T1 "}
 	BlockIDs   = []string{"", "b1", "B2"}
-	Bads       = []string{"", "abc", "12:xx:00", "2024-01-01", "1.5x", "--", "12a", "08:10:00:00", "1:2:3:4:5", ":::", "99999999999999999999"}
+	Bads       = []string{"", "abc", "12:xx:00", "2024-01-01", "1.5x", "--", "12a", "08:10:00:00", "1:2:3:4:5", ":::", "99999999999999999999",
+		"4294967297", "08:10:\xa000", "true", "T"} // 2^32+1 (wraps to 1 as an int32); a lone 0xA0 byte (not UTF-8, not a space) inside a time; booleans
 )
 
 // Dec is a decimal fraction token: its CSV text and the float64 the text denotes (the Go compiler converts
@@ -45,7 +46,8 @@ var Decs = []Dec{{"", 0}, {"0", 0}, {"-73.99", -73.99}, {"40.75", 40.75}, {"100.
 var Dates = []string{"", "20240101", "20240115", "20240310", "20240311", "20240407", "20240630", "20240929", "20241103", "20250101", "20251231"}
 
 func init() {
-	for _, p := range [][]string{ServiceIDs, ShapeIDs} {
+	// (the last token of these two pools is a reference-only id, see above)
+	for _, p := range [][]string{ServiceIDs[:len(ServiceIDs)-1], ShapeIDs[:len(ShapeIDs)-1]} {
 		if !sort.StringsAreSorted(p) {
 			panic("harness: pool must be sorted")
 		}
